@@ -14,7 +14,8 @@ enum { PA_NEW = 1,        /* a: taskpool slot            -> tp[a] = ptg_make(...
        PA_TPWAIT,         /* a: slot                      -> parsec_taskpool_wait             */
        PA_COMPOSE,        /* a: dst slot, b: first, c: n  -> tp[a] = compose(tp[b..b+c-1])    */
        PA_TEST,           /*                              -> parsec_context_test              */
-       PA_FREE };         /* a: slot                      -> parsec_taskpool_free             */
+       PA_FREE,           /* a: slot                      -> parsec_taskpool_free             */
+       PA_CHAIN };        /* a: slot, b: slot             -> completion callback of tp[a] adds tp[b] to the context */
 typedef struct ptg_action { int kind, a, b, c; } ptg_action_t;
 
 typedef struct ptg_shared {
